@@ -1,4 +1,4 @@
-(* include: lua_ser.inc.ml lua_legs.inc.ml *)
+(* include: lua_ser.inc.ml lua_legs.inc.ml srv_case.inc.ml *)
 (* C04 driver. case: "<hex bytes> <code points csv | ->". Answer: <token stream>\t<spec>\t<classes> *)
 let () = register "c04.toks" (fun line ->
   match split_ws line with
@@ -36,5 +36,259 @@ let () = register "c04.errlocs" (fun line ->
   match split_ws line with
   | h :: _ -> fst (lex_model ~always:true (bytes_of_hex h)) ^ "\t-\t-"
   | _ -> "BAD-CASE")
+
+(* ------------------------------------------------------------------ c04.ranges: the ranges the REAL server sends.
+   case = scripted-server case (F: files, S: steps) + the field "A:<answer of the server>" appended by the oracle leg
+   c04.srvans.  There is no model of the handlers here: the model observable is the answer itself; the SPEC column is the
+   answer again iff every range in it passes the judgement extracted from Coq (Proofs/ServerRange.v:
+   range_in_doc for clause (i), range_designates / ranges_designate for clause (ii), proved sound by C04_designate_sound),
+   otherwise "VIOL n: ..." listing the offending ranges.  Classes: the exact class predicates (also extracted) of the
+   offending ranges when EVERY offending range of the case has one, else "-" (an unlisted deviation). *)
+let utf8_decode (bs : n list) : n list option =
+  let a = Array.of_list (List.map int_of_n bs) in
+  let len = Array.length a in
+  let out = ref [] and i = ref 0 and ok = ref true in
+  let cont k = !i + k < len && a.(!i + k) land 0xC0 = 0x80 in
+  while !ok && !i < len do
+    let b = a.(!i) in
+    if b < 0x80 then (out := b :: !out; incr i)
+    else if b land 0xE0 = 0xC0 && cont 1 then (out := ((b land 0x1F) lsl 6) lor (a.(!i+1) land 0x3F) :: !out; i := !i + 2)
+    else if b land 0xF0 = 0xE0 && cont 1 && cont 2 then
+      (out := ((b land 0x0F) lsl 12) lor ((a.(!i+1) land 0x3F) lsl 6) lor (a.(!i+2) land 0x3F) :: !out; i := !i + 3)
+    else if b land 0xF8 = 0xF0 && cont 1 && cont 2 && cont 3 then
+      (out := ((b land 0x07) lsl 18) lor ((a.(!i+1) land 0x3F) lsl 12) lor ((a.(!i+2) land 0x3F) lsl 6) lor (a.(!i+3) land 0x3F) :: !out;
+       i := !i + 4)
+    else ok := false
+  done;
+  if !ok then Some (List.rev_map n_of_int !out) else None
+
+type c04file = { rel : string; cps : n list; lts : ltok list; guard : bool; fcls : string list }
+
+let c04_file (rel, bs) : c04file option =
+  match utf8_decode bs with
+  | None -> None
+  | Some cps ->
+    if utf8_of cps <> bs || not (List.for_all scalar cps) then None else begin
+      oracle_used := false;
+      let lts, lexok = (match lex_all gbk_oracle bs with Ok l -> (l, true) | _ -> ([], false)) in
+      let cls = List.filter_map (fun (nm, b) -> if b then Some nm else None)
+          [ ("escape", cls_escape cps); ("long_bracket", cls_long_bracket cps); ("astral", cls_astral cps);
+            ("two_byte", cls_two_byte cps); ("lfcr", cls_lfcr cps); ("bom", cls_bom cps);
+            ("lexerr", (not lexok) || cls_lexerr lts) ] in
+      (* the guard of C04_designate_sound; a file that needed the GBK oracle is in class two_byte.  Clause (ii) is
+         demanded of the files that also PARSE without error (what the server makes of the AST fragments of a file with
+         syntax errors - entries named "]" or "(" - names no identifier) *)
+      let parses = lexok && (match parse_bytes gbk_oracle classify_tok bs with Ok (PR (_, [], [])) -> true | _ -> false) in
+      let guard = lexok && parses && (not !oracle_used) && file_class_ok cps && not (cls_lexerr lts) in
+      Some { rel; cps; lts; guard; fcls = (if !oracle_used && not (List.mem "two_byte" cls) then "two_byte" :: cls else cls) }
+    end
+
+let parse_range (s : string) : range option =
+  try Scanf.sscanf s "%d:%d-%d:%d%!" (fun a b c d ->
+      if a < 0 || b < 0 || c < 0 || d < 0 then None else
+      Some { r_start = { p_line = n_of_int a; p_ch = n_of_int b }; r_end = { p_line = n_of_int c; p_ch = n_of_int d } })
+  with _ -> None
+
+(* split "x,y[z,w],u" at top-level commas *)
+let split_top (s : string) : string list =
+  let out = ref [] and depth = ref 0 and cur = Buffer.create 64 in
+  String.iter (fun ch ->
+    if ch = ',' && !depth = 0 then (out := Buffer.contents cur :: !out; Buffer.clear cur)
+    else begin
+      if ch = '[' || ch = '{' then incr depth;
+      if ch = ']' || ch = '}' then decr depth;
+      Buffer.add_char cur ch
+    end) s;
+  if Buffer.length cur > 0 then out := Buffer.contents cur :: !out;
+  List.rev !out
+
+let strip_brackets (s : string) : string option =
+  let l = String.length s in
+  if l >= 2 && s.[0] = '[' && s.[l-1] = ']' then Some (String.sub s 1 (l - 2)) else None
+
+(* last component of a symbol name: "local x" -> x, "M.bar(a, b)" -> bar, "M:foo" -> foo, "a.b.c" -> c *)
+let last_component (name : string) : string =
+  let name = (match String.index_opt name '(' with Some i -> String.sub name 0 i | None -> name) in
+  let name = if String.length name > 6 && String.sub name 0 6 = "local " then String.sub name 6 (String.length name - 6) else name in
+  let cut c s = (match String.rindex_opt s c with Some i -> String.sub s (i + 1) (String.length s - i - 1) | None -> s) in
+  String.trim (cut ':' (cut '.' name))
+
+type docent = { dname : string; dkind : int; drange : string; dsel : string; dkids : bool }
+(* "name/kind@r/r[children],..." flattened *)
+let rec parse_docsyms (s : string) (acc : docent list ref) : unit =
+  List.iter (fun it ->
+    let head, kids = (match String.index_opt it '[' with
+        | Some i -> (String.sub it 0 i, Some (String.sub it i (String.length it - i)))
+        | None -> (it, None)) in
+    (match String.split_on_char '@' head with
+     | [nk; rr] ->
+       (match String.split_on_char '/' nk, String.split_on_char '/' rr with
+        | [nm; k], [r; sel] ->
+          acc := { dname = string_of_bytes (bytes_of_hex nm); dkind = (try int_of_string k with _ -> -1); drange = r; dsel = sel;
+                   dkids = (kids <> None) } :: !acc
+        | _ -> acc := { dname = "?"; dkind = -1; drange = "?"; dsel = "?"; dkids = false } :: !acc)
+     | _ -> acc := { dname = "?"; dkind = -1; drange = "?"; dsel = "?"; dkids = false } :: !acc);
+    (match kids with
+     | Some k -> (match strip_brackets k with Some inner -> parse_docsyms inner acc | None -> ())
+     | None -> ())) (split_top s)
+
+let () = register "c04.ranges" (fun line ->
+  let fields = split_ws line in
+  let ans = List.fold_left (fun a f -> if String.length f >= 2 && String.sub f 0 2 = "A:" then Some f else a) None fields in
+  match ans with
+  | None -> "NO-ANSWER\t-\t-"
+  | Some ans ->
+    let case = parse_srv_case line in
+    let files = List.map c04_file case.files in
+    if List.exists (fun f -> f = None) files then "BAD-CASE\t-\t-" else
+    let files = Array.of_list (List.filter_map (fun f -> f) files) in
+    let by_rel rel = (let r = ref None in Array.iter (fun f -> if f.rel = rel then r := Some f) files; !r) in
+    let body = String.sub ans 2 (String.length ans - 2) in
+    let parts = String.split_on_char '|' body in
+    let qsteps = List.filter (fun st -> match st with StOpen _ | StChange _ | StSave _ | StClose _ -> false | _ -> true) case.steps in
+    if List.length parts <> List.length qsteps then
+      (* crash / timeout / init error: not an answer; the server's liveness is property C01's business *)
+      ans ^ "\t" ^ ans ^ "\t-"
+    else begin
+      let viols = ref [] in          (* (description, class option) *)
+      let nranges = ref 0 and ndemand = ref 0 in
+      let viol k op what cls = viols := (Printf.sprintf "%d:%s:%s" k op what, cls) :: !viols in
+      (* clause (i) for every range; returns the parsed range when it passes *)
+      let in_doc ?(other = fun (_ : range) -> false) k op (f : c04file) (rs : string) : range option =
+        incr nranges;
+        match parse_range rs with
+        | None -> viol k op (f.rel ^ "@" ^ rs ^ ":unparsed") None; None
+        | Some r ->
+          if range_in_doc f.cps r then Some r
+          else begin
+            (* outside the guard the six file classes / lexical errors explain a displaced position; a range that is
+               right for ANOTHER file of the workspace is class wrong_file *)
+            viol k op (f.rel ^ "@" ^ rs ^ ":outside-document")
+              (match f.fcls with
+               | c :: _ -> Some c
+               | [] -> if other r then Some "wrong_file"
+                       else if op = "diag" && cls_eof_comment f.cps then Some "eof_comment" else None); None
+          end in
+      (* clause (ii): r designates `name` in file f (only demanded inside the guard).  q = the query (file, line,
+         character) for the answers of define / refs / highlight / rename *)
+      let acceptable (g : c04file) (name : n list) (r : range) q =
+        ranges_designate g.lts name [r] || cls_string_key g.lts name r || cls_self_alias g.lts name r
+        || (match q with Some ((qf : c04file), l, c) -> cls_prefix_fallback qf.lts l c g.lts r | None -> false) in
+      let elsewhere (f : c04file) (name : n list) (r : range) q =
+        Array.exists (fun (g : c04file) -> g.rel <> f.rel && range_in_doc g.cps r && ((not g.guard) || acceptable g name r q)) files in
+      let designate k op (f : c04file) (rs : string) (r : range) (name : n list) ~(span_ok : bool) q =
+        if f.guard then begin
+          incr ndemand;
+          if not (ranges_designate f.lts name [r]) then begin
+            let cls =
+              if cls_string_key f.lts name r then Some "string_key"
+              else if cls_self_alias f.lts name r then Some "self_alias"
+              else if span_ok && cls_outline_span f.lts name r then Some "outline_span"
+              else if (match q with Some ((qf : c04file), l, c) -> cls_prefix_fallback qf.lts l c f.lts r | None -> false)
+              then Some (if op = "define" then "define_prefix" else "prefix_fallback")
+              else if q <> None && elsewhere f name r q then Some "wrong_file"
+              else if (match q with Some ((qf : c04file), l, c) -> cls_other_entity qf.lts l c (qf.rel = f.rel) f.lts name r | None -> false)
+              then Some "other_entity"
+              else if (match q with Some ((qf : c04file), l, c) -> qf.rel = f.rel && cls_later_member qf.lts l c r | None -> false)
+              then Some "later_member"
+              else None in
+            let under = (match ident_text_at f.lts r with Some t -> "ident:" ^ string_of_bytes t | None -> "no-ident-token") in
+            viol k op (Printf.sprintf "%s@%s:want=%s:%s" f.rel rs (string_of_bytes name) under) cls
+          end
+        end in
+      let locs_of k op (v : string) : (c04file * string) list =
+        match strip_brackets v with
+        | None -> []          (* RPCERR / UNPARSED: no ranges *)
+        | Some inner ->
+          List.filter_map (fun it ->
+            match String.index_opt it '@' with
+            | Some i ->
+              let rel = String.sub it 0 i and rest = String.sub it (i + 1) (String.length it - i - 1) in
+              let rs = (match String.index_opt rest '=' with Some j -> String.sub rest 0 j | None -> rest) in
+              (match by_rel rel with
+               | Some f -> Some (f, rs)
+               | None -> viol k op (rel ^ "@" ^ rs ^ ":unknown-file") None; None)
+            | None -> None) (split_top inner) in
+      List.iteri (fun k (st, part) ->
+        let key, v = (match String.index_opt part '=' with
+            | Some i -> (String.sub part 0 i, String.sub part (i + 1) (String.length part - i - 1))
+            | None -> (part, "")) in
+        let query op i l c (targets : (c04file * string) list) =
+          let qf = files.(i) in
+          let name = if qf.guard then ident_at qf.lts (n_of_int l) (n_of_int c) else None in
+          let q = Some (qf, n_of_int l, n_of_int c) in
+          List.iter (fun (f, rs) ->
+            let other r = (match name with
+                | Some nm -> elsewhere f nm r q
+                | None -> Array.exists (fun (g : c04file) -> g.rel <> f.rel && range_in_doc g.cps r) files) in
+            match in_doc ~other k op f rs with
+            | Some r -> (match name with Some nm -> designate k op f rs r nm ~span_ok:false q | None -> ())
+            | None -> ()) targets in
+        match st with
+        | StDefine (i, l, c) when key = "define" -> query "define" i l c (locs_of k "define" v)
+        | StRefs (i, l, c) when key = "refs" -> query "refs" i l c (locs_of k "refs" v)
+        | StRename (i, l, c, _) when key = "rename" -> query "rename" i l c (locs_of k "rename" v)
+        | StHighlight (i, l, c) when key = "highlight" ->
+          (match strip_brackets v with
+           | Some inner -> query "highlight" i l c (List.map (fun rs -> (files.(i), rs)) (split_top inner))
+           | None -> ())
+        | StDocsym i when key = "docsym" ->
+          (match strip_brackets v with
+           | Some inner ->
+             let acc = ref [] in
+             parse_docsyms inner acc;
+             let f = files.(i) in
+             List.iter (fun d ->
+               ignore (in_doc k "docsym" f d.drange);
+               match in_doc k "docsym-sel" f d.dsel with
+               | Some r when d.dkind <> 11 ->
+                 designate k "docsym-sel" f d.dsel r (bytes_of_string (last_component d.dname)) ~span_ok:(d.dkids || d.dkind = 12) None
+               | _ -> ()) (List.rev !acc)
+           | None -> ())
+        | StWssym _ when key = "wssym" ->
+          (match strip_brackets v with
+           | Some inner ->
+             List.iter (fun it ->
+               match String.split_on_char '@' it with
+               | [nk; rel; rs] ->
+                 (match String.split_on_char '/' nk, by_rel rel with
+                  | [nm; kind], Some f ->
+                    (match in_doc k "wssym" f rs with
+                     | Some r when kind <> "11" ->
+                       designate k "wssym" f rs r (bytes_of_string (last_component (string_of_bytes (bytes_of_hex nm)))) ~span_ok:false None
+                     | _ -> ())
+                  | _, None -> viol k "wssym" (rel ^ "@" ^ rs ^ ":unknown-file") None
+                  | _ -> ())
+               | _ -> ()) (split_top inner)
+           | None -> ())
+        | StDiags when key = "diags" ->
+          (match strip_brackets v with
+           | Some inner ->
+             List.iter (fun grp ->
+               match String.index_opt grp '{' with
+               | Some i when String.length grp > i + 1 ->
+                 let rel = String.sub grp 0 i and inner = String.sub grp (i + 1) (String.length grp - i - 2) in
+                 (match by_rel rel with
+                  | Some f ->
+                    List.iter (fun d ->
+                      match String.index_opt d '@' with
+                      | Some j -> ignore (in_doc k "diag" f (String.sub d (j + 1) (String.length d - j - 1)))
+                      | None -> ()) (String.split_on_char ',' inner)
+                  | None -> ())      (* luahelper.json etc. *)
+               | _ -> ()) (String.split_on_char ';' inner)
+           | None -> ())
+        | _ -> ()) (List.combine qsteps parts);
+      let viols = List.rev !viols in
+      match viols with
+      | [] -> ans ^ "\t" ^ ans ^ "\t-"
+      | _ ->
+        let shown = List.filteri (fun i _ -> i < 8) (List.filter (fun (_, c) -> c = None) viols @ List.filter (fun (_, c) -> c <> None) viols) in
+        let spec = Printf.sprintf "VIOL_%d_of_%d_ranges:%s" (List.length viols) !nranges
+            (String.concat ";" (List.map (fun (d, c) -> d ^ (match c with Some c -> "#" ^ c | None -> "#UNLISTED")) shown)) in
+        let spec = String.concat "_" (split_ws spec) in
+        let cls = if List.for_all (fun (_, c) -> c <> None) viols
+          then String.concat "," (List.sort_uniq compare (List.filter_map snd viols)) else "-" in
+        ans ^ "\t" ^ spec ^ "\t" ^ cls
+    end)
 
 let () = main ()
